@@ -121,6 +121,69 @@ Proof.
   rewrite Ht. repeat split.
 Qed.
 
+(* ---------- the transmission is bounded, and its bound is not a response timeout ---------- *)
+(* the bound is set when the write begins: write start + the request's timeout *)
+Lemma write_bound_set s r : ph s = PIdle ->
+  forall r' tx u, ph (fst (transmit s r)) = PWriting r' tx u -> r' = r /\ wdl (fst (transmit s r)) = now s + rq_timeout r.
+Proof.
+  intros Hp r' tx u. unfold transmit. destruct (txid_next (txid s)) as [v' t]. destruct (rq_kind r).
+  - destruct (wfail (set_txid s v')).
+    + pose proof (finish_summary (set_wctl (set_txid s v') false 0) r (RErr ReIo)) as H. destruct (finish _ r (RErr ReIo)) as [s' o].
+      cbn [fst]. intros E. destruct H as (Hi & _). rewrite E in Hi. discriminate.
+    + destruct (write_now (set_txid s v')); cbn [fst ph set_ph set_wdl set_wctl wdl]; intros E; [discriminate|]. inversion E. split; reflexivity.
+  - pose proof (finish_summary (set_txid s v') r (RErr ReBadRequest)) as H. destruct (finish _ r (RErr ReBadRequest)) as [s' o].
+    cbn [fst]. intros E. destruct H as (Hi & _). rewrite E in Hi. discriminate.
+Qed.
+
+(* ... and stays as it is while that write is in progress, whatever happens *)
+Lemma write_bound_kept s e r tx u : ph s = PWriting r tx u ->
+  forall r' tx' u', ph (fst (step cfg s e)) = PWriting r' tx' u' -> (r', tx', u') = (r, tx, u) /\ wdl (fst (step cfg s e)) = wdl s.
+Proof.
+  intros Eph r' tx' u'.
+  assert (Hsame : forall s', ph s' = ph s -> wdl s' = wdl s -> ph s' = PWriting r' tx' u' -> (r', tx', u') = (r, tx, u) /\ wdl s' = wdl s).
+  { intros s' H1 H2 H3. rewrite H1, Eph in H3. inversion H3. auto. }
+  destruct e as [c st| | |ok|t k|t k| | | | | |dt| |dt| | |k| ]; cbn [step]; rewrite ?Eph; cbn [listens reading fst];
+    try (apply Hsame; reflexivity).
+  - destruct (Nat.eqb (handles s) 0); [apply Hsame; reflexivity|]. destruct (_ && _); [apply Hsame; reflexivity|]. destruct st; apply Hsame; reflexivity.
+  - destruct (Nat.eqb (wpark s) 0 && (fire cfg u <=? now s)); [cbn [fst written ph set_ph]; intros E; discriminate|].
+    destruct (fire cfg (wdl s) <=? now s); [|apply Hsame; reflexivity].
+    pose proof (finish_summary s r (RErr write_timeout_error)) as H. destruct (finish s r _) as [s' o]. cbn [fst]. intros E.
+    destruct H as (Hi & _). rewrite E in Hi. discriminate.
+  - unfold crash. cbn [fst ph set_chan set_ph]. intros E. discriminate.
+  - destruct (wpark s) as [|n]; [apply Hsame; reflexivity|]. cbn [ph set_wpark]. rewrite Eph.
+    destruct (Nat.eqb n 0 && _); [cbn [fst written ph set_ph]; intros E; discriminate|apply Hsame; reflexivity].
+Qed.
+
+(* when the write is not done at the bound, the timer step fails the request with Io (payload TimedOut) and ends the
+   session with IoError - whatever the timeout counter says, and without touching it: a transmission that timed out is
+   not a response timeout.  Before that instant the branch is not enabled. *)
+Lemma write_timeout_exact s r tx u : ph s = PWriting r tx u ->
+  Nat.eqb (wpark s) 0 && (fire cfg u <=? now s) = false ->
+  (fire cfg (wdl s) <= now s ->
+     step cfg s EvTimer = (let '(s', o) := end_session (set_ph s PIdle) SeIoError in (s', [OComplete (rq_id r) (RErr ReIo)] ++ o))) /\
+  (now s < fire cfg (wdl s) -> step cfg s EvTimer = (s, [])).
+Proof.
+  intros Eph Hw. cbn [step]. rewrite Eph, Hw. split; intros H.
+  - destruct (N.leb_spec (fire cfg (wdl s)) (now s)); [|lia]. reflexivity.
+  - destruct (N.leb_spec (fire cfg (wdl s)) (now s)); [lia|]. reflexivity.
+Qed.
+
+(* a write that can finish does: the request is in flight with its reply deadline counted from NOW (the end of the
+   write), also at or after the transmission bound (tokio::time::timeout polls the write first) *)
+Lemma write_done_first s r tx u : ph s = PWriting r tx u -> wpark s = 0%nat -> fire cfg u <= now s ->
+  step cfg s EvTimer = (set_ph s (PInFlight r tx (now s + rq_timeout r)), [OWire tx (rq_id r)]).
+Proof.
+  intros Eph Hw Hu. cbn [step]. rewrite Eph, Hw. destruct (N.leb_spec (fire cfg u) (now s)); [reflexivity|lia].
+Qed.
+
+(* releasing the transport finishes a parked write at once *)
+Lemma release_finishes s r tx u : ph s = PWriting r tx u -> wpark s = 1%nat -> fire cfg u <= now s ->
+  step cfg s EvWriteRelease = (set_ph (set_wpark s 0) (PInFlight r tx (now s + rq_timeout r)), [OWire tx (rq_id r)]).
+Proof.
+  intros Eph Hw Hu. cbn [step]. rewrite Hw. cbn [ph set_wpark now]. rewrite Eph. cbn [Nat.eqb andb].
+  destruct (N.leb_spec (fire cfg u) (now s)); [reflexivity|lia].
+Qed.
+
 (* ---------- the eager schedule never leaves a due timer behind ---------- *)
 Lemma saturate_quiescent : forall fuel s, let '(s', o, ok) := saturate cfg fuel s in ok = true -> timer_due cfg s' = false /\ recv_ready s' = false.
 Proof.
